@@ -70,7 +70,17 @@ class _Time:
         self._real = real
 
     def sleep(self, _s):
-        raise PollAgain()
+        import threading
+
+        pt = getattr(threading.current_thread(), 'vf_poller', None)
+        if pt is None:
+            raise PollAgain()
+        # a poller thread: park until the harness asks for the next iteration
+        pt.parked.set()
+        pt.go.wait()
+        pt.go.clear()
+        if pt.kill:
+            raise SystemExit()
 
     def __getattr__(self, n):
         return getattr(self._real, n)
@@ -134,6 +144,61 @@ class Step:
         self.fn, self.args, self.kw, self.d = fn, args, kw, d
         self.name = getattr(fn, '__name__', str(fn))
         self.poller = self.name.startswith('is_')
+        self.thread = None
+
+
+class PollerThread:
+    '''a submit poller on a real thread, single-stepped by the harness: it
+    runs until its loop calls time.sleep, parks there, and continues for one
+    more iteration each time the harness polls it.  Harness and poller never
+    run at the same time, so the interleaving stays the harness's choice -
+    but the poller's local state (what it read before the loop) lives on
+    between polls, as it does in production.'''
+
+    def __init__(self, step):
+        import threading
+
+        self.step = step
+        self.parked = threading.Event()
+        self.go = threading.Event()
+        self.done = threading.Event()
+        self.kill = False
+        self.result = None
+        self.exc = None
+        self.t = threading.Thread(target=self._run, daemon=True)
+        self.t.vf_poller = self
+        self.t.start()
+
+    def _run(self):
+        try:
+            self.result = self.step.fn(*self.step.args, **self.step.kw)
+        except SystemExit:
+            pass
+        except BaseException as exc:  # pylint: disable=broad-except
+            self.exc = exc
+        finally:
+            self.done.set()
+            self.parked.set()
+
+    def wait(self):
+        if not self.parked.wait(20):
+            raise core.HarnessError('poller thread neither parked nor ended')
+        return self.done.is_set()
+
+    def step_once(self):
+        '''-> True when the poller function has returned'''
+        if self.done.is_set():
+            return True
+        self.parked.clear()
+        self.go.set()
+        return self.wait()
+
+    def stop(self):
+        if not self.done.is_set():
+            self.kill = True
+            self.parked.clear()
+            self.go.set()
+            self.t.join(5)
 
 
 class Rig:
@@ -256,16 +321,28 @@ class Rig:
         '''run a background step to completion on the harness thread'''
         from twisted.python import failure
 
-        self.pending.remove(step)
-        try:
-            res = step.fn(*step.args, **step.kw)
-        except PollAgain:
-            self.pending.append(step)  # still polling
-            return False
-        except Exception as exc:  # pylint: disable=broad-except
-            self.errors.append((step.name, exc))
-            step.d.errback(failure.Failure(exc))
-            return True
+        if step.poller:
+            if step.thread is None:
+                step.thread = PollerThread(step)
+                ended = step.thread.wait()
+            else:
+                ended = step.thread.step_once()
+            if not ended:
+                return False  # still polling
+            self.pending.remove(step)
+            if step.thread.exc is not None:
+                self.errors.append((step.name, step.thread.exc))
+                step.d.errback(failure.Failure(step.thread.exc))
+                return True
+            res = step.thread.result
+        else:
+            self.pending.remove(step)
+            try:
+                res = step.fn(*step.args, **step.kw)
+            except Exception as exc:  # pylint: disable=broad-except
+                self.errors.append((step.name, exc))
+                step.d.errback(failure.Failure(exc))
+                return True
         errs = []
         step.d.addErrback(lambda f: errs.append(f) or None)
         step.d.callback(res)
@@ -332,6 +409,8 @@ class Rig:
         dawgie.context.fsm = s['fsm']
         for st in list(self.pending):
             st.d.addErrback(lambda f: None)
+            if st.thread is not None:
+                st.thread.stop()
         self.pending.clear()
         try:
             self.store.close()
